@@ -20,10 +20,11 @@ def contracts(tier):
 
 
 def extra_obligations(tier):
-    return [assemble_bc.rls_obligations(),
+    _pu = solve.custom_result('paramuse:C10', 'pyiga/assemble.py', 'all functions', __import__('pyvc.paramuse', fromlist=['x']).obligations(['pyiga/assemble.py', 'pyiga/approx.py'], 'paramuse'))
+    _r = [assemble_bc.rls_obligations(),
             solve.custom_result('assemble:compute_dirichlet_bcs', assemble_bc.F, 'compute_dirichlet_bcs', assemble_bc.all_shorthand_obligations),
             solve.custom_result('assemble:Multipatch.compute_dirichlet_bcs', assemble_bc.F, 'Multipatch.compute_dirichlet_bcs', assemble_bc.multipatch_bc_obligations)]
-
+    return list(_r) + [_pu]
 
 MANIFEST = {
     'category': 'proof',
